@@ -106,14 +106,18 @@ def plainsRel : StepRel where
     unfold Rt.setRegs; exact Stack.setRegs_plain rt.layers rt.core g i d h⟩
   setGlobal := fun rt k v ls h => ⟨setGlobal_shape _ _ k v h, fun i d hi => setGlobal_plain _ _ k v h i d hi⟩
   setIndex := fun rt k v ls h => ⟨setIndex_shape _ _ k v h, fun i d hi => setIndex_plain _ _ k v h i d hi⟩
-  frames := by
-    intro ls rt rt' ⟨hs, hp⟩
-    constructor
-    · have := shapeRel.frames ls rt rt' hs
-      exact this
-    · intro i d hi
-      have := hp (ls.length + i) d (by simp [List.getElem?_append_right, hi])
-      simpa [List.getElem?_drop] using this
+  framePlain := by
+    intro d0 rt rt' ⟨hs, hp⟩
+    refine ⟨shapeRel.framePlain d0 rt rt' hs, ?_⟩
+    intro i d hi
+    have := hp (i + 1) d (by simpa using hi)
+    simpa [List.getElem?_drop, Nat.add_comm] using this
+  frameSandbox := by
+    intro root rt rt' ⟨hs, hp⟩
+    refine ⟨shapeRel.frameSandbox root rt rt' hs, ?_⟩
+    intro i d hi
+    have := hp (i + 2) d (by simpa using hi)
+    simpa [List.getElem?_drop, Nat.add_comm] using this
 
 /-- **Plain frames are never written**: after rendering any template, every plain frame of the
 start runtime (the caller's data, enclosing loop variables, enclosing include arguments) is still
